@@ -2,6 +2,7 @@
 From Coq Require Import List String Ascii ZArith. Import ListNotations.
 From Coq Require Import List Bool.
 From SV Require Import Lib.Str Model.Types Model.Naming Model.Api Model.Back Proofs.GenProofs.
+From SV Require Import Model.FrontSmall Model.View Model.Front Proofs.WalkProofs.
 
 (* the attribute block contains one entry per public attribute (type-variable attributes excepted), no more *)
 Theorem C03_class_attributes_once : forall classes rmap nc ats inner acc names s r s',
@@ -16,5 +17,20 @@ Theorem C03_class_methods : forall classes rmap nc ms inner ic already props met
   snd r = fold_left (fun acc m => set_add (f_name m) acc) (filter (fun m => negb (method_skipped ic already m)) ms) names.
 Proof. exact class_methods_names. Qed.
 
+(* ANALYZER SIDE, for every module tree, every alias table, every docstring answer and every state of the walk: the module
+   record holds the module's function definitions (plain and decorated), its classes and its enums - each exactly once,
+   in source order, under its Python name.  (Module-level overloads, assignments and other statements are not walked:
+   the walker's child filter, read off the source, is `module_child`.) *)
+Theorem C03_front_module_inventory : forall al d pref_doc warn st m st' w,
+  walk_module al d pref_doc warn st m = Ok (st', w) -> vs_stack st = [] ->
+  exists md, vs_modules st' = dict_set (m_id md) md (vs_modules st) /\ m_id md = dots_to_slashes (mf_fullname m) /\
+    map f_name (m_functions md) = map fn_name (member_funcs (walked m)) /\
+    map f_id (m_functions md) = map (fun f => m_id md ++ K"/" ++ fn_name f) (member_funcs (walked m)) /\
+    map c_name (m_classes md) = map cd_name (member_classes (walked m)) /\
+    map c_id (m_classes md) = map (fun c => m_id md ++ K"/" ++ cd_name c) (member_classes (walked m)) /\
+    map e_name (m_enums md) = map cd_name (member_enums (walked m)) /\
+    map e_id (m_enums md) = map (fun c => m_id md ++ K"/" ++ cd_name c) (member_enums (walked m)).
+Proof. exact module_inventory. Qed.
 Print Assumptions C03_class_attributes_once.
 Print Assumptions C03_class_methods.
+Print Assumptions C03_front_module_inventory.
